@@ -5,25 +5,34 @@
   left and with the parameters `ps` the matcher captured.  This file generalises `C01_dispatch_sound` /
   `C01_dispatch_404` / `C01_found_from` to ARBITRARY incoming parameters `ps` and lifts them to `Group.serve`.
 
-  The merge law of the parameters (`NodeSound`, `NotFoundSound`; `setAll ps caps` is `ps` overridden / extended by
-  `caps` in order with the model's `AMap.set`, `treeNames t` the `seg.name`s of the router's tree):
+  The merge law of the parameters after the D30 repair (`setAll ps caps` is `ps` overridden / extended by `caps` in
+  order with the model's `AMap.set`): for ANY incoming parameters `ps` with one entry per key (`ps.keys.Nodup`, what
+  every context built by `Set` satisfies),
 
-    * a route capture always wins:            `k ∈ keys (captures chain) → params[k] = (setAll ps (captures chain))[k]`;
-    * keys foreign to the tree are untouched: `k ∉ treeNames t          → params[k] = (setAll ps (captures chain))[k] = ps[k]`;
-    * any other key has the value of the `set` fold OR IS GONE;
-    * if no key of `ps` is a name of the tree: `params = ps ++ captures chain = setAll ps (captures chain)`, and the
-      404 reports exactly `ps`.
+    * a found route reports EXACTLY `setAll ps (captures chain)`: a route capture wins over an equal-named matcher
+      parameter, every other matcher parameter survives with its value (and its place);
+    * the router's 404 reports EXACTLY `ps`
 
-  The third clause cannot be improved and the 404 clause needs the disjointness hypothesis: the statement "the final
-  parameters are `ps` overridden by the captures; a 404 reports exactly `ps`" is FALSE for the model (and for the Go
-  code, `node.go` `ctx.Set` … `ctx.Delete`) when a matcher parameter has the name of a route parameter of an
-  ABANDONED branch — `C01_group_collision`.
+  (`C01_found_exact`, `C01_404_exact`, `C01_dispatch_exact`, `C01_group_dispatch_exact`).  The side condition cannot be
+  dropped (`C01_exact_needs_nodup`) but always holds for what a group matcher hands over (`C01_group_params_nodup`,
+  hence `C01_group_dispatch_exact_all` without any hypothesis on `ps`).  No disjointness between the
+  matcher's parameter names and the names of the router's tree is needed any more.  Before the repair the undo of an
+  abandoned branch was `ctx.Delete(name)`, which erased a matcher parameter of the same name (the former theorems
+  `C01_group_collision` / `C01_collision_tree` proved that about the old model); `C01_group_collision_repaired` is the
+  same table evaluated on the repaired model.
 
-  Helper lemmas: `Mux/Proofs/GroupLift{Morph,Params,Serve,Reach}.lean` (namespace `Mux.P18`).
+  The older, weaker lookup forms (`NodeSound`, `NotFoundSound`: "… or is gone", exact only under disjointness) are kept:
+  they remain true and need no hypothesis on `ps` at all.
+
+  Helper lemmas: `Mux/Proofs/GroupLift{Morph,Params,Serve,Reach}.lean` (namespace `Mux.P18`),
+  `Mux/Proofs/Restore{,Match,Group,Matcher}.lean` (namespace `Mux.P19`).
 -/
 import Mux.Proofs.GroupLiftServe
 import Mux.Proofs.GroupLiftReach
+import Mux.Proofs.RestoreGroup
+import Mux.Proofs.RestoreMatcher
 import Mux.Proofs.GetNodeFuel
+import Mux.Proofs.ResolveAllEval
 import Mux.Properties.C01d
 import Mux.Properties.C13
 import Mux.Properties.C14reach
@@ -145,7 +154,7 @@ theorem C01_params_irrelevant (env : Env) (t : Tree) (path method : Bytes) (ps :
       ∃ f0, t.handler env path [] method = .res f0 ∧ f.node = f0.node ∧ f.handler = f0.handler ∧ f.ok = f0.ok) ∧
     (∀ f0, t.handler env path [] method = .res f0 →
       ∃ f, t.handler env path ps method = .res f ∧ f.node = f0.node ∧ f.handler = f0.handler ∧ f.ok = f0.ok) := by
-  have hT : Closed (fun _ _ : Params => True) := ⟨fun _ _ _ _ _ => trivial, fun _ _ _ _ => trivial⟩
+  have hT : Closed (fun _ _ : Params => True) := ⟨fun _ _ _ _ _ => trivial, fun _ _ _ _ _ _ _ => trivial⟩
   have hr_fault : ∀ {s : Nat} {y : HR}, HRRel (fun _ _ : Params => True) (.fault s) y → y = .fault s := by
     intro s y hy; cases y <;> simp only [HRRel] at hy; subst hy; rfl
   have hr_unsup : ∀ {y : HR}, HRRel (fun _ _ : Params => True) .unsupported y → y = .unsupported := by
@@ -194,10 +203,11 @@ theorem C01_group_dispatch_sound (env : Env) (tab : Nat → Option Hosts) (rt : 
   obtain ⟨a, b, c1, c2, c3⟩ := router_call_sound env r hr { req with path := p } ps c hc
   exact ⟨a, b, (serveContext_call_found env r _ ps c hc).2.2.2.1, c1, c2, c3⟩
 
-/-- The exact form in one statement: when no parameter of the matcher has the name of a node of the router's tree,
-the parameters handed to `CallFunc` are the matcher's followed by the route captures, and a 404 reports the
-matcher's parameters unchanged. -/
-theorem C01_group_dispatch_exact (env : Env) (tab : Nat → Option Hosts) (rt : RTab) (g : Group) (req : Req)
+/-- The exact form under DISJOINTNESS (no hypothesis on `ps` itself): when no parameter of the matcher has the name of a
+node of the router's tree, the parameters handed to `CallFunc` are the matcher's followed by the route captures, and
+a 404 reports the matcher's parameters unchanged.  (Before the D30 repair this was the only exact form and carried the
+name `C01_group_dispatch_exact`.) -/
+theorem C01_group_dispatch_disjoint (env : Env) (tab : Nat → Option Hosts) (rt : RTab) (g : Group) (req : Req)
     (pre post : List (Nat × Matcher)) (rid : Nat) (m : Matcher) (p : Bytes) (ps : Params) (r : Router)
     (hg : g.routers = pre ++ (rid, m) :: post)
     (hpre : ∀ e ∈ pre, C13.Rejects env tab req e)
@@ -217,6 +227,132 @@ theorem C01_group_dispatch_exact (env : Env) (tab : Nat → Option Hosts) (rt : 
     exact ⟨chain, c1, c2, c3, c4, (c11 hd).1, (c11 hd).2, c7, c6⟩
   · obtain ⟨a, b, _, _, e⟩ := h2 hn
     exact ⟨e hd, a, b⟩
+
+/-! ## The exact law after the D30 repair: arbitrary incoming parameters with one entry per key -/
+
+/-- **`C01_found_exact`** (tree level).  On a tree whose index fast path selects literal children (`IdxLit`; every
+reachable tree) and for ANY incoming parameters `ps` with one entry per key: a found route reports exactly the `set`
+fold of the chain's captures over `ps`; keys that are no capture keep their incoming value.  With distinct names
+along each chain of the tree (`NamesOkL []`; every reachable tree) the capture names are pairwise distinct, each
+capture can be looked up, and under disjointness the fold is the concatenation. -/
+theorem C01_found_exact (env : Env) (t : Tree) (hI : Node.All IdxLit t.root)
+    (path method : Bytes) (ps : Params) (hnd : ps.keys.Nodup) (f : Found) (n : Node)
+    (hp : path ≠ []) (hs : path ≠ [42]) (htr : t.trace = none ∨ method ≠ mTRACE)
+    (h : t.handler env path ps method = .res f) (hf : f.node = some n) :
+    ∃ chain : List (Seg × Bytes),
+      chain ≠ [] ∧ Chain t.root (chain.map (·.1)) n ∧ path = instChain chain ∧
+      (∀ sv ∈ chain, sv.1.Satisfies env t.ic sv.2) ∧ n.handlers ≠ [] ∧ HandlerAgrees n method f ∧
+      f.params = setAll ps (captures chain) ∧
+      (∀ k, k ∉ (captures chain).map (·.1) → f.params.get? k = ps.get? k) ∧
+      (NamesOkL [] t.root.children →
+        ((captures chain).map (·.1)).Nodup ∧
+        (∀ k v, (k, v) ∈ captures chain → f.params.get? k = some v) ∧
+        ((∀ k ∈ ps.keys, k ∉ treeNames t) → f.params = ps ++ captures chain)) :=
+  P19.found_exact env t hI path method ps hnd f n hp hs htr h hf
+
+/-- **`C01_404_exact`** (tree level): a 404 reports exactly the incoming parameters — no hypothesis on names. -/
+theorem C01_404_exact (env : Env) (t : Tree) (hI : Node.All IdxLit t.root)
+    (path method : Bytes) (ps : Params) (hnd : ps.keys.Nodup) (f : Found)
+    (h : t.handler env path ps method = .res f) (hf : f.node = none) :
+    f.params = ps ∧ f.handler = t.notFound ∧ f.ok = false :=
+  P19.notFound_exact env t hI path method ps hnd f h hf
+
+/-- At the level of the matcher: a miss of `matchChildren` hands back exactly the parameters it was given, a hit the
+`set` fold of the captures of the chain taken — whatever the names in the tree. -/
+theorem C01_match_exact (env : Env) (ic : Interceptors) (n : Node) (hI : Node.All IdxLit n) (path : Bytes) (ps : Params)
+    (hnd : ps.keys.Nodup) :
+    (∀ ps', n.matchChildren env ic path ps = .miss ps' → ps' = ps) ∧
+    (∀ m ps', n.matchChildren env ic path ps = .hit m ps' →
+      ∃ chain : List (Seg × Bytes), Chain n (chain.map (·.1)) m ∧ path = instChain chain ∧
+        (∀ sv ∈ chain, sv.1.Satisfies env ic sv.2) ∧ m.handlers ≠ [] ∧ ps' = setAll ps (captures chain)) := by
+  refine ⟨fun ps' h => P19.matchChildren_miss_restore h hI hnd, fun m ps' h => ?_⟩
+  obtain ⟨chain, h1, h2, h3, h4, h5⟩ := P19.matchChildren_restore h
+  exact ⟨chain, h1, h2, h3, h4, h5 hI hnd⟩
+
+/-- **`C01_dispatch_exact`**: `Router.serveContext` on a reachable tree, any incoming parameters with one entry per
+key. -/
+theorem C01_dispatch_exact (env : Env) (r : Router) (hr : P14.ReachAll r.tree) (req : Req) (ps : Params)
+    (hnd : ps.keys.Nodup) (c : Call) (h : r.serveContext env req ps = .call c) :
+    (∀ n, c.node = some n → req.path ≠ [] → req.path ≠ [42] → (r.tree.trace = none ∨ req.method ≠ mTRACE) →
+      ∃ chain : List (Seg × Bytes), chain ≠ [] ∧ Chain r.tree.root (chain.map (·.1)) n ∧ req.path = instChain chain ∧
+        (∀ sv ∈ chain, sv.1.Satisfies env r.tree.ic sv.2) ∧
+        c.params = setAll ps (captures chain) ∧ ((captures chain).map (·.1)).Nodup ∧
+        (∀ k v, (k, v) ∈ captures chain → c.params.get? k = some v) ∧
+        (∀ k, k ∉ (captures chain).map (·.1) → c.params.get? k = ps.get? k) ∧
+        ((∀ k ∈ ps.keys, k ∉ treeNames r.tree) → c.params = ps ++ captures chain) ∧
+        n.pattern = (chain.map (·.1.value)).flatten ∧ HandlerAgrees n req.method (Call.found c)) ∧
+    (c.node = none → c.params = ps ∧ c.handler = r.tree.notFound ∧ c.ok = false) :=
+  P19.router_call_exact env r hr req ps hnd c h
+
+/-- **`C01_group_dispatch_exact`** (D30 repair; replaces the disjointness hypothesis of the former statement by "one
+entry per key").  Let `(rid, m)` be the first entry of the group whose matcher does not reject, accepting with the
+rewritten path `p` and ANY parameters `ps` with pairwise distinct keys, and let its router `r` have a tree reachable
+by a well-formed history.  Then for every call `Group.serve` produces:
+
+* a reported node `n` comes with a chain spelling `p` whose values satisfy their constraints, and the parameters handed
+  to `CallFunc` are EXACTLY `setAll ps (captures chain)`: every route capture is there with its value (it wins over a
+  matcher parameter of the same name), every key that is no capture has the matcher's value — in particular a matcher
+  parameter named like a route parameter of an ABANDONED branch survives;
+* the router's 404 reports EXACTLY the matcher's `ps`. -/
+theorem C01_group_dispatch_exact (env : Env) (tab : Nat → Option Hosts) (rt : RTab) (g : Group) (req : Req)
+    (pre post : List (Nat × Matcher)) (rid : Nat) (m : Matcher) (p : Bytes) (ps : Params) (r : Router)
+    (hg : g.routers = pre ++ (rid, m) :: post)
+    (hpre : ∀ e ∈ pre, C13.Rejects env tab req e)
+    (hm : m.run env tab req req.path [] = .accept p ps)
+    (hrt : rt.get? rid = some r) (hr : P14.ReachAll r.tree)
+    (hnd : ps.keys.Nodup) (c : Call) (hc : g.serve env tab rt req = .call c) :
+    (∀ n, c.node = some n → p ≠ [] → p ≠ [42] → (r.tree.trace = none ∨ req.method ≠ mTRACE) →
+      ∃ chain : List (Seg × Bytes), chain ≠ [] ∧ Chain r.tree.root (chain.map (·.1)) n ∧ p = instChain chain ∧
+        (∀ sv ∈ chain, sv.1.Satisfies env r.tree.ic sv.2) ∧
+        c.params = setAll ps (captures chain) ∧ ((captures chain).map (·.1)).Nodup ∧
+        (∀ k v, (k, v) ∈ captures chain → c.params.get? k = some v) ∧
+        (∀ k, k ∉ (captures chain).map (·.1) → c.params.get? k = ps.get? k) ∧
+        ((∀ k ∈ ps.keys, k ∉ treeNames r.tree) → c.params = ps ++ captures chain) ∧
+        n.pattern = (chain.map (·.1.value)).flatten ∧ HandlerAgrees n req.method (Call.found c)) ∧
+    (c.node = none → c.params = ps ∧ c.handler = r.tree.notFound ∧ c.ok = false) := by
+  have h1 := C13.C13_first env tab rt g req pre post rid m p ps r hg hpre hm hrt
+  rw [h1] at hc
+  exact P19.router_call_exact env r hr { req with path := p } ps hnd c hc
+
+/-- **The side condition always holds for a group matcher.**  `Group.serve` runs a matcher on NO incoming parameters;
+every matcher kind writes with `Set` (`Hosts` through `Tree.handler`, whose exact law keeps one entry per key), so the
+parameters an accepting matcher hands over have pairwise distinct keys — provided every `Hosts` matcher of the table
+has the matcher hypothesis `IdxLit` (true after `NewHosts` and any history: `HostsReachWf.idxLit`, `HostsLateWf.idxLit`). -/
+theorem C01_group_params_nodup (env : Env) (tab : Nat → Option Hosts)
+    (htab : ∀ id hs, tab id = some hs → Node.All IdxLit hs.tree.root) (m : Matcher) (req : Req) (path p : Bytes)
+    (ps : Params) (h : m.run env tab req path [] = .accept p ps) : ps.keys.Nodup :=
+  P19.matcher_accept_nodup env tab htab m req path p ps h
+
+/-- `C01_group_dispatch_exact` with its side condition discharged by `C01_group_params_nodup`: NO hypothesis on the
+matcher's parameters at all. -/
+theorem C01_group_dispatch_exact_all (env : Env) (tab : Nat → Option Hosts) (rt : RTab) (g : Group) (req : Req)
+    (pre post : List (Nat × Matcher)) (rid : Nat) (m : Matcher) (p : Bytes) (ps : Params) (r : Router)
+    (htab : ∀ id hs, tab id = some hs → Node.All IdxLit hs.tree.root)
+    (hg : g.routers = pre ++ (rid, m) :: post)
+    (hpre : ∀ e ∈ pre, C13.Rejects env tab req e)
+    (hm : m.run env tab req req.path [] = .accept p ps)
+    (hrt : rt.get? rid = some r) (hr : P14.ReachAll r.tree) (c : Call) (hc : g.serve env tab rt req = .call c) :
+    (∀ n, c.node = some n → p ≠ [] → p ≠ [42] → (r.tree.trace = none ∨ req.method ≠ mTRACE) →
+      ∃ chain : List (Seg × Bytes), chain ≠ [] ∧ Chain r.tree.root (chain.map (·.1)) n ∧ p = instChain chain ∧
+        (∀ sv ∈ chain, sv.1.Satisfies env r.tree.ic sv.2) ∧
+        c.params = setAll ps (captures chain) ∧ ((captures chain).map (·.1)).Nodup ∧
+        (∀ k v, (k, v) ∈ captures chain → c.params.get? k = some v) ∧
+        (∀ k, k ∉ (captures chain).map (·.1) → c.params.get? k = ps.get? k) ∧
+        ((∀ k ∈ ps.keys, k ∉ treeNames r.tree) → c.params = ps ++ captures chain) ∧
+        n.pattern = (chain.map (·.1.value)).flatten ∧ HandlerAgrees n req.method (Call.found c)) ∧
+    (c.node = none → c.params = ps ∧ c.handler = r.tree.notFound ∧ c.ok = false) :=
+  C01_group_dispatch_exact env tab rt g req pre post rid m p ps r hg hpre hm hrt hr
+    (C01_group_params_nodup env tab htab m req req.path p ps hm) c hc
+
+/-- The hypothesis on the table is satisfiable: no `Hosts` matcher at all, or one reached by a history. -/
+example : (∀ id hs, (fun _ : Nat => (none : Option Hosts)) id = some hs → Node.All IdxLit hs.tree.root) ∧
+    (∀ id hs, (fun _ : Nat => some P14.exHs) id = some hs → Node.All IdxLit hs.tree.root) := by
+  constructor
+  · intro _ _ h; cases h
+  · intro _ hs h
+    simp only [Option.some.injEq] at h
+    subst h
+    exact P14.exHs_reachWf.idxLit
 
 /-! ## What the matcher parameters are (with no incoming parameters, as `Group.serve` runs matchers) -/
 
@@ -311,7 +447,8 @@ theorem C01_group_params_and_or (env : Env) (tab : Nat → Option Hosts) (req : 
   · rw [runOr]
   · rw [runOr]; rfl
 
-/-! ## The counterexample: a matcher parameter named like a route parameter of an abandoned branch -/
+/-! ## The former counterexample (D30), repaired: a matcher parameter named like a route parameter of an abandoned
+branch -/
 
 /-- The group `[PathVersion("id", "/v1") → cxRouter]` and what `CallFunc` is handed for `GET path`. -/
 def cxGroup : Group := { routers := [(0, .pathVersion [105, 100] [[47, 118, 49, 47]])] }
@@ -322,30 +459,44 @@ def cxCall (path : Bytes) : Option (Option Bytes × Bool × Bytes × Params) :=
 
 /-- Routes `/u/{id}/a`, `/u/{id}/c`, `/u/{name}/b` (the tree these `Handle` calls build), behind a path-version
 matcher `PathVersion("id", "/v1")`.  The tree satisfies the matcher's hypotheses (`NamesOkL []`, `IdxLit`), `id`
-is one of its names, and
-* `GET /v1/u/5/b` is served by `/u/{name}/b` with the parameters `{name: 5}` ONLY — not `{id: /v1, name: 5}`: the
-  branch `{id}/` matched `5`, overwrote the matcher's `id`, missed below, and its undo DELETED `id`;
-* `GET /v1/u/5/z` is the router's 404 with NO parameters — not the matcher's `{id: /v1}`.
-So "the final parameters are `ps` overridden by the captures in order; a 404 reports exactly `ps`" is false without the
-disjointness hypothesis; `C01_found_general`'s third clause ("or is gone") is what remains true. -/
-theorem C01_group_collision :
+is one of its names (the disjointness hypothesis of `C01_group_dispatch_disjoint` FAILS), the matcher's parameters
+`{id: /v1}` have one entry per key, and
+* `GET /v1/u/5/b` is served by `/u/{name}/b` with the parameters `{id: /v1, name: 5}`: the branch `{id}/` matched `5`,
+  overwrote the matcher's `id`, missed below, and its undo put `/v1` back (before the D30 repair it deleted `id`: the
+  call carried `{name: 5}` only — theorem `C01_group_collision` of the unrepaired model);
+* `GET /v1/u/5/z` is the router's 404 with the matcher's `{id: /v1}` (before the repair: no parameters).
+This is what `C01_group_dispatch_exact` says: `setAll {id: /v1} {name: 5}`, and exactly `ps` for the 404. -/
+theorem C01_group_collision_repaired :
     NamesOkL [] cxTree.root.children ∧ Node.All IdxLit cxTree.root ∧ ([105, 100] : Bytes) ∈ treeNames cxTree ∧
     (Matcher.pathVersion [105, 100] [[47, 118, 49, 47]]).run cxEnv (fun _ => none)
         { method := cxGET, path := [47, 118, 49, 47, 117, 47, 53, 47, 98] } [47, 118, 49, 47, 117, 47, 53, 47, 98] [] =
       .accept [47, 117, 47, 53, 47, 98] [([105, 100], [47, 118, 49])] ∧
+    (AMap.keys [(([105, 100] : Bytes), ([47, 118, 49] : Bytes))]).Nodup ∧
     cxCall [47, 118, 49, 47, 117, 47, 53, 47, 98] =
-      some (some cxName.pattern, true, [47, 117, 47, 53, 47, 98], [([110, 97, 109, 101], [53])]) ∧
-    cxCall [47, 118, 49, 47, 117, 47, 53, 47, 122] = some (none, false, [47, 117, 47, 53, 47, 122], []) := by
-  refine ⟨cx_names, cx_idxLit, cx_collides, by rw [C15.C15_path_run]; rfl, by rfl, by rfl⟩
+      some (some cxName.pattern, true, [47, 117, 47, 53, 47, 98],
+        [([105, 100], [47, 118, 49]), ([110, 97, 109, 101], [53])]) ∧
+    cxCall [47, 118, 49, 47, 117, 47, 53, 47, 122] =
+      some (none, false, [47, 117, 47, 53, 47, 122], [([105, 100], [47, 118, 49])]) := by
+  refine ⟨cx_names, cx_idxLit, cx_collides, by rw [C15.C15_path_run]; rfl, by decide, by rfl, by rfl⟩
 
-/-- The same at the level of `Tree.handler`: incoming `{id: v1}`. -/
-theorem C01_collision_tree :
+/-- The same at the level of `Tree.handler`: incoming `{id: v1}`; found with `{id: v1, name: 5}`, 404 with `{id: v1}`
+(the unrepaired model answered `{name: 5}` and `{}`: former theorem `C01_collision_tree`). -/
+theorem C01_collision_tree_repaired :
     (foundOf (cxTree.handler cxEnv [47, 117, 47, 53, 47, 98] cxPs cxGET)).map
         (fun f => (f.node.map (·.pattern), f.ok, f.params)) =
-      some (some cxName.pattern, true, [([110, 97, 109, 101], [53])]) ∧
+      some (some cxName.pattern, true, [([105, 100], [118, 49]), ([110, 97, 109, 101], [53])]) ∧
     (foundOf (cxTree.handler cxEnv [47, 117, 47, 53, 47, 122] cxPs cxGET)).map
-        (fun f => (f.node.isNone, f.params)) = some (true, []) :=
+        (fun f => (f.node.isNone, f.params)) = some (true, [([105, 100], [118, 49])]) :=
   ⟨cx_found, cx_404⟩
+
+/-- The side condition "one entry per key" cannot be dropped from the exact law: with the key `id` TWICE in the
+incoming parameters (`{id: v1, id: v2}`) the 404 of the same table reports `{id: v1, id: v1}` — the undo writes the
+value `Get` saw into every entry of that key. -/
+theorem C01_exact_needs_nodup :
+    ¬ (AMap.keys (cxPs ++ [([105, 100], [118, 50])])).Nodup ∧
+    (foundOf (cxTree.handler cxEnv [47, 117, 47, 53, 47, 122] (cxPs ++ [([105, 100], [118, 50])]) cxGET)).map
+        (fun f => (f.node.isNone, f.params)) = some (true, [([105, 100], [118, 49]), ([105, 100], [118, 49])]) :=
+  ⟨by decide, cx_dup⟩
 
 /-! ## Non-vacuity: a group with a path-version matcher in front of a router with the route `/u/{id}` -/
 
@@ -392,6 +543,71 @@ example : (match exG.serve exEnvG (fun _ => none) exRt exReqG with
       [([118], [47, 118, 49]), (bytesOfString "id", [53])], [114]) := by
   unfold exRt exR
   mux_eval [exOps, exR0]
+
+/-! ## Non-vacuity of `C01_group_dispatch_exact` where disjointness FAILS: the collision table as a real history -/
+
+/-- `/u/{id}/a`, `/u/{id}/c`, `/u/{name}/b` -/
+def colA : Bytes := [47, 117, 47, 123, 105, 100, 125, 47, 97]
+def colC : Bytes := [47, 117, 47, 123, 105, 100, 125, 47, 99]
+def colB : Bytes := [47, 117, 47, 123, 110, 97, 109, 101, 125, 47, 98]
+/-- `Handle("/u/{id}/a")`, `Handle("/u/{id}/c")`, `Handle("/u/{name}/b")` -/
+def colOps : List ROp := [.handle colA 1 [] [mGET], .handle colC 3 [] [mGET], .handle colB 2 [] [mGET]]
+def colR : Router := exR0.run colOps
+/-- `PathVersion("id", "/v1")` -/
+def colM : Matcher := .pathVersion [105, 100] [[47, 118, 49, 47]]
+def colG : Group := { routers := [(0, colM)] }
+def colRt : RTab := [(0, colR)]
+/-- `GET /v1/u/5/b`, `GET /v1/u/5/z` -/
+def colReqB : Req := { method := mGET, path := [47, 118, 49, 47, 117, 47, 53, 47, 98] }
+def colReqZ : Req := { method := mGET, path := [47, 118, 49, 47, 117, 47, 53, 47, 122] }
+
+/-- Kernel evaluation of a router history whose tree has nodes with several children (`mux_eval2` for `Router.run`). -/
+macro "mux_eval_router" "[" ids:ident,* "]" : tactic =>
+  `(tactic| (simp only [$[$ids:ident],*, Router.run, List.foldl_cons, List.foldl_nil, Router.step,
+      Router.handle, Tree.add, P10.getNode_eq_F, P16.getNodeF_eq_I]; decide +kernel))
+
+theorem colR_reach : P14.ReachAll colR.tree :=
+  (C01_router_reach (cfg := exCfg) rfl (ops := colOps) (by
+    intro op hop
+    simp only [colOps, List.mem_cons, List.not_mem_nil, or_false] at hop
+    rcases hop with rfl | rfl | rfl <;> decide +kernel)).1
+
+/-- The hypotheses of `C01_group_dispatch_exact` hold: the matcher accepts with `{id: /v1}` (one entry per key), the
+router's tree is reachable … -/
+theorem col_hyps : colG.routers = [] ++ (0, colM) :: [] ∧
+    (∀ e ∈ ([] : List (Nat × Matcher)), C13.Rejects exEnvG (fun _ => none) colReqB e) ∧
+    colM.run exEnvG (fun _ => none) colReqB colReqB.path [] =
+      .accept [47, 117, 47, 53, 47, 98] [([105, 100], [47, 118, 49])] ∧
+    colRt.get? 0 = some colR ∧ P14.ReachAll colR.tree ∧
+    (AMap.keys [(([105, 100] : Bytes), ([47, 118, 49] : Bytes))]).Nodup := by
+  refine ⟨rfl, by simp, ?_, rfl, colR_reach, by decide⟩
+  rw [show colM = .pathVersion [105, 100] [[47, 118, 49, 47]] from rfl, C15.C15_path_run]
+  rfl
+
+/-- … although `id` IS a name of the router's tree (`C01_group_dispatch_disjoint` does not apply) … -/
+theorem col_collides : ([105, 100] : Bytes) ∈ treeNames colR.tree := by
+  have : (treeNames colR.tree).contains [105, 100] = true := by
+    unfold treeNames colR
+    mux_eval_router [colOps, exR0, colA, colB, colC]
+  simpa using this
+
+set_option synthInstance.maxSize 512 in
+/-- … and the group hands `CallFunc` the node of `/u/{name}/b` with `{id: /v1, name: 5}` … -/
+theorem col_found : (match colG.serve exEnvG (fun _ => none) colRt colReqB with
+      | .call c => some (c.node.map (·.pattern), c.ok, c.path, c.params)
+      | _ => none) =
+    some (some colB, true, [47, 117, 47, 53, 47, 98], [([105, 100], [47, 118, 49]), ([110, 97, 109, 101], [53])]) := by
+  unfold colRt colR
+  mux_eval_router [colOps, exR0, colA, colB, colC]
+
+set_option synthInstance.maxSize 512 in
+/-- … resp. the router's 404 with exactly `{id: /v1}`. -/
+theorem col_404 : (match colG.serve exEnvG (fun _ => none) colRt colReqZ with
+      | .call c => some (c.node.map (·.pattern), c.ok, c.path, c.params)
+      | _ => none) =
+    some (none, false, [47, 117, 47, 53, 47, 122], [([105, 100], [47, 118, 49])]) := by
+  unfold colRt colR
+  mux_eval_router [colOps, exR0, colA, colB, colC]
 
 /-- Hypotheses of `C01_group_params_hosts`: a `Hosts` matcher reached by a well-formed history (`C14reach.lean`),
 registered under id 0, accepts the host `A.COM.cn:80`. -/
